@@ -230,7 +230,9 @@ func (j *jsonBuilder) marshalResponseJSON(message *RPCMessage, data protoref.Mes
 	validFields := message.Fields
 	if message.IsOneOf() {
 		// For oneOf types, add type-specific fields based on the actual concrete type
-		validFields = append(validFields, message.FragmentFields.SelectFieldsForTypes(message.SelectValidTypes(string(data.Type().Descriptor().Name())))...)
+		// message.Fields belongs to the plan, which is shared by all (concurrent) Loads of the datasource:
+		// never append into its spare capacity.
+		validFields = append(validFields[:len(validFields):len(validFields)], message.FragmentFields.SelectFieldsForTypes(message.SelectValidTypes(string(data.Type().Descriptor().Name())))...)
 	}
 
 	// Process each field in the message
